@@ -31,6 +31,7 @@ from typing import Any, Callable, Optional
 
 from harness.core import Ctx, Driver, REPO, VERIF, LEAN
 from harness import lib_c04gen as G
+from harness import lib_c11sites as SITES
 
 PROPS = 'XsVerif.Props.C11'
 AUDIT = 'XsVerif.Audit.C11'
@@ -316,6 +317,24 @@ def table_classes() -> dict[str, type]:
     return classes
 
 
+SWITCH_CALLEES = ('raw_decode', 'raw_encode', 'text_decode', 'decode', 'encode', 'iter_decode', 'iter_encode', 'iter_errors')
+
+
+def recursion_guard() -> bool:
+    """Does XsdElement.raw_decode catch RecursionError around the call of the content decoder?  (AST of the source)"""
+    tree = ast.parse((REPO / 'xmlschema/validators/elements.py').read_text(encoding='utf-8-sig'))
+    for n in ast.walk(tree):
+        if isinstance(n, ast.ClassDef) and n.name == 'XsdElement':
+            for m in n.body:
+                if isinstance(m, ast.FunctionDef) and m.name == 'raw_decode':
+                    for t in ast.walk(m):
+                        if isinstance(t, ast.Try) and any('RecursionError' in handler_names(h) for h in t.handlers) and \
+                                any(isinstance(c, ast.Call) and isinstance(c.func, ast.Attribute) and c.func.attr == 'raw_decode'
+                                    for b in t.body for c in ast.walk(b)):
+                            return True
+    return False
+
+
 def translate(ctx: Optional[Ctx]) -> None:
     import xmlschema
     classes = table_classes()
@@ -325,12 +344,15 @@ def translate(ctx: Optional[Ctx]) -> None:
     defaults, minima = probe_limits()
     sites = find_sites()
     raisable = observe_raisable()
+    raise_sites = sorted(SITES.sites(REPO), key=lambda x: (x['key'].rsplit('#', 1)[0], int(x['key'].rsplit('#', 1)[1])))
+    switches = [w for w in SITES.mode_switches(REPO) if w['callee'] in SWITCH_CALLEES]
     lines = [
         '/-  GENERATED by harness/props/c11.py (translate) from the source tree under check — do not edit.',
         '    Tables only: exception classes with their MRO, public error classes, limit defaults / minima probed',
         '    through the real setter, the handler lists of the conversion sites (read from the AST) and the',
         '    exception classes observed under those sites. -/',
         'import XsVerif.Model.Limits',
+        'import XsVerif.Model.RaisePolicy',
         'namespace XsVerif.Generated.C11',
         'open XsVerif.Limits',
         '',
@@ -358,6 +380,24 @@ def translate(ctx: Optional[Ctx]) -> None:
         ',\n'.join('  (%s, %s)' % (lean_str(n), lean_list([exc_lean(c) for c in raisable.get(n, [])])) for n, _ in sites),
         ']',
         '',
+        '/-- every `raise` statement of xmlschema/validators (AST of the current source, harness/lib_c11sites.py):',
+        '    key = module:function:class, k-th raise of that key, class, enclosing mode test, reachable from the descent;',
+        '    sorted by key, then index (the order `RaisePolicy.classifyAll` walks) -/',
+        'def raiseSites : List XsVerif.RaisePolicy.RaiseSite := [',
+        ',\n'.join('  ⟨%s, %d, %s, .%s, %s⟩' % (lean_str(x['key'].rsplit('#', 1)[0]), int(x['key'].rsplit('#', 1)[1]), lean_str(x['cls']),
+                                                  x['guard'], 'true' if x['reachable'] else 'false') for x in raise_sites),
+        ']',
+        '',
+        '/-- calls inside the descent that start a sub-descent in a LITERAL validation mode, with the classes listed by the',
+        '    enclosing handlers (AST) -/',
+        'def modeSwitches : List XsVerif.RaisePolicy.ModeSwitch := ' + lean_list(
+            ['⟨%s, %s, %s, %s⟩' % (lean_str(w['func']), lean_str(w['callee']), lean_str(w['mode']), lean_list([lean_str(h) for h in w['handlers']]))
+             for w in switches]),
+        '',
+        '/-- XsdElement.raw_decode / raw_encode translate a RecursionError of the content descent into a library error',
+        '    (`except RecursionError` around the recursive call: notes/fixes/C11-recursion-error-resource-exceeded.patch) -/',
+        'def recursionGuard : Bool := %s' % ('true' if recursion_guard() else 'false'),
+        '',
         'end XsVerif.Generated.C11',
         '',
     ]
@@ -367,7 +407,9 @@ def translate(ctx: Optional[Ctx]) -> None:
         GENERATED.write_text(text)
     if ctx is not None:
         ctx.extra['generated'] = {'exception_classes': len(classes), 'public_errors': len(public), 'sites': [n for n, _ in sites],
-                                  'limit_defaults': defaults, 'limit_minima': minima}
+                                  'limit_defaults': defaults, 'limit_minima': minima,
+                                  'raise_sites': len(raise_sites), 'raise_sites_reachable': sum(1 for x in raise_sites if x['reachable']),
+                                  'recursion_guard': recursion_guard()}
 
 
 if __name__ == '__main__':
@@ -414,6 +456,16 @@ class State:
     max_xml_depth: int = 1000
 
 
+# call sites of finding C11-F18 (encoding direction, outside the statement of C11): "file function" of the innermost frame
+# inside the xmlschema package
+ENCODE_SITES = [r'converters/\w+\.py (element_encode|get_xmlns_from_data|map_attributes|map_content|unmap_qname|map_qname)',
+                r'dataobjects\.py (element_encode|get_data_element|insert)', r'namespaces\.py (__init__|unmap_qname|map_qname|__setitem__)',
+                r'caching\.py __call__', r'validators/helpers\.py (python_to_int|python_to_float|decimal_to_python|python_to_boolean)',
+                r'validators/simple_types\.py raw_encode', r'validators/elements\.py raw_encode', r'validators/groups\.py raw_encode',
+                r'validators/attributes\.py raw_encode', r'validators/validation\.py (set_element_content|create_element)',
+                r'xpath/mixin\.py find', r'utils/\w+\.py \w+']
+
+
 def known_match(case: dict, detail: Any) -> Optional[str]:
     """Exact rules of notes/findings/C11.json."""
     if not isinstance(detail, dict):
@@ -428,6 +480,27 @@ def known_match(case: dict, detail: Any) -> Optional[str]:
         if State.d0 is not None and isinstance(d, int) and State.d0 <= d <= State.max_xml_depth:
             return 'C11-F2'
         return None
+    if exc == 'XMLResourceExceeded' and RECURSION_MSG in (detail.get('msg') or ''):
+        # the repaired descent: the same documents are refused with the resource error instead of processed
+        d = case.get('depth')
+        if State.d0 is not None and isinstance(d, int) and State.d0 <= d <= State.max_xml_depth:
+            return 'C11-F16'
+        return None
+    if detail.get('direction') == 'encode' and str(detail.get('entry', '')).split(':')[0] in ('encode', 'to_etree+path'):
+        wh0 = [re.sub(r':\d+', '', w) for w in (detail.get('where') or []) if not w.startswith('@')]
+        if wh0 and any(re.fullmatch(pat, wh0[-1]) for pat in ENCODE_SITES):
+            return 'C11-F18'
+        return None
+    if exc in ('AssertionError', 'AttributeError', 'TypeError', 'KeyError', 'IndexError') or \
+            (exc == 'XMLResourceError' and 'already under iteration' in (detail.get('msg') or '')):
+        # C11-F17: the value of a depth filler (the chunk decoder that iter_decode installs for a lazy resource) reaches
+        # the element_decode of a converter that assumes items it built itself
+        wh17 = [w for w in (detail.get('where') or []) if not w.startswith('@')]
+        if (case.get('lazy') or (case.get('options') or {}).get('depth_filler')) and \
+                any(re.search(r'(converters/\w+\.py|dataobjects\.py):\d+ element_decode$', w) for w in wh17):
+            return 'C11-F17'
+        if exc in ('AssertionError', 'AttributeError', 'KeyError', 'IndexError'):
+            return None
     if exc == 'OverflowError' and detail.get('mode') == 'skip':
         if re.search(r'\d{10,}', case.get('xml', '') + str(case.get('value', ''))):
             return 'C11-F4'
@@ -694,12 +767,158 @@ def call(fn: Callable[[], Any]) -> dict:
         r = fn()
         return {'class': 'verdict', 'value': r if isinstance(r, bool) else None}
     except xmlschema.XMLSchemaException as e:
-        return {'class': 'library', 'exc': type(e).__name__, 'msg': str(e)[:100000], 'where': where(e),
+        return {'class': 'library', 'exc': type(e).__name__, 'msg': str(e)[:100000], 'where': where(e), 'origin': origin(e),
                 'validation_error': isinstance(e, xmlschema.XMLSchemaValidationError)}
     except BaseException as e:  # noqa
         if isinstance(e, (KeyboardInterrupt, SystemExit)):
             raise
-        return {'class': 'foreign', 'exc': type(e).__name__, 'msg': str(e)[:100000], 'where': where(e)}
+        return {'class': 'foreign', 'exc': type(e).__name__, 'msg': str(e)[:100000], 'where': where(e), 'origin': origin(e)}
+
+
+def origin(e: BaseException) -> Optional[tuple[str, int]]:
+    """(module, line) of the statement that raised, when it lies in xmlschema/validators"""
+    tb = e.__traceback__
+    last = None
+    while tb is not None:
+        last = tb
+        tb = tb.tb_next
+    if last is None:
+        return None
+    fn = last.tb_frame.f_code.co_filename
+    if '/xmlschema/validators/' in fn:
+        return (Path(fn).stem, last.tb_lineno)
+    return None
+
+
+class RaiseMonitor:
+    """Observes every exception raised by a statement of xmlschema/validators while a call runs (sys.monitoring RAISE
+    events): the sequence of `raise` statements of the regenerated table that were executed, in order."""
+    TOOL = 3
+
+    def __init__(self) -> None:
+        self.by_line: dict[tuple[str, int], tuple[str, int]] = {}
+        for x in SITES.sites(REPO):
+            key, idx = x['key'].rsplit('#', 1)
+            self.by_line[(x['module'], x['line'])] = (key, int(idx))
+        # call sites that start a sub-descent in a literal mode: (module, line) -> mode
+        # (only the shielded ones: the caller catches validation errors — `validate()` is the strict entry point itself)
+        self.switch_lines = {(w['func'].split(':')[0], w['line']): w['mode'] for w in SITES.mode_switches(REPO)
+                             if w['callee'] in SWITCH_CALLEES and
+                             {'XMLSchemaValidationError', 'ValueError', 'Exception'} & set(w['handlers'])}
+        self.fired: list[tuple[str, int, Optional[str]]] = []
+        self.active = False
+        self.ok = hasattr(sys, 'monitoring')
+        self._stems: dict[str, Optional[str]] = {}
+
+    def _stem(self, filename: str) -> Optional[str]:
+        st = self._stems.get(filename)
+        if st is None and filename not in self._stems:
+            st = Path(filename).stem if '/xmlschema/validators/' in filename else None
+            self._stems[filename] = st
+        return st
+
+    def _on_raise(self, code: Any, offset: int, exc: BaseException) -> None:
+        st = self._stem(code.co_filename)
+        if st is None or not self.active:
+            return
+        tb = exc.__traceback__
+        line = None
+        # the line of this frame: the last traceback entry belongs to the raising frame at RAISE time
+        while tb is not None:
+            if tb.tb_frame.f_code is code:
+                line = tb.tb_lineno
+            tb = tb.tb_next
+        if line is None:
+            for ln in code.co_lines():
+                if ln[0] <= offset < ln[1]:
+                    line = ln[2]
+                    break
+        site = self.by_line.get((st, line))
+        if site is not None:
+            # is the statement inside a sub-descent started by a mode switch?  (frames between it and the entry point)
+            nested = None
+            f = sys._getframe(1)
+            n = 0
+            while f is not None and n < 40:
+                fst = self._stem(f.f_code.co_filename)
+                if fst is not None:
+                    md = self.switch_lines.get((fst, f.f_lineno))
+                    if md is not None:
+                        nested = md
+                        break
+                f = f.f_back
+                n += 1
+            self.fired.append((site[0], site[1], nested))
+
+    def __enter__(self) -> 'RaiseMonitor':
+        if self.ok:
+            m = sys.monitoring
+            try:
+                m.use_tool_id(self.TOOL, 'c11')
+            except ValueError:
+                self.ok = False
+                return self
+            m.register_callback(self.TOOL, m.events.RAISE, self._on_raise)
+            m.set_events(self.TOOL, m.events.RAISE)
+        return self
+
+    def __exit__(self, *a: Any) -> None:
+        if self.ok:
+            m = sys.monitoring
+            m.set_events(self.TOOL, 0)
+            m.register_callback(self.TOOL, m.events.RAISE, None)
+            m.free_tool_id(self.TOOL)
+
+    def watch(self, fn: Callable[[], Any]) -> tuple[dict, list[tuple[str, int, Optional[str]]]]:
+        self.fired = []
+        self.active = True
+        try:
+            o = call(fn)
+        finally:
+            self.active = False
+        return o, self.fired
+
+
+class PolicyObs:
+    """What the raise statements did on this run: per (site, mode of the entry point) fired / escaped, and the distinct
+    scripts (sequence of executed raise statements of one call) with the way the call ended."""
+    def __init__(self) -> None:
+        self.sites: dict[tuple[str, int, str], dict] = {}
+        self.scripts: dict[tuple, dict] = {}
+        self.encode_sites: dict[tuple[str, int], int] = {}
+        self.calls = 0
+
+    def add(self, mode: str, fired: list, o: dict, mon: RaiseMonitor, case: dict, encode: bool = False) -> None:
+        """mode: the mode of the entry point (n/a for resource construction: nothing of the validators runs there)"""
+        if mode not in ('strict', 'lax', 'skip'):
+            return
+        if encode:
+            # encoding: the argument-dependent sites (no element selectable for the data …) do fire; only the
+            # classification of the executed statements is compared
+            self.calls += 1
+            for key, idx, nested in fired:
+                self.encode_sites.setdefault((key, idx), 0)
+                self.encode_sites[key, idx] += 1
+            return
+        self.calls += 1
+        esc = None
+        if o['class'] != 'verdict' and o.get('origin') is not None:
+            esc = mon.by_line.get(tuple(o['origin']))
+        for key, idx, nested in fired:
+            rec = self.sites.setdefault((key, idx, nested or mode), {'fired': 0, 'escaped': 0, 'example': None})
+            rec['fired'] += 1
+            if rec['example'] is None:
+                rec['example'] = {k: case.get(k) for k in ('schema', 'mutation', 'xml', 'hex', 'entry')}
+        if esc is not None:
+            rec = self.sites.setdefault((esc[0], esc[1], mode), {'fired': 0, 'escaped': 0, 'example': None})
+            rec['escaped'] += 1
+        if len(fired) <= 60:
+            key = (mode, tuple(fired), esc, o.get('exc') if o['class'] != 'verdict' else None)
+            if key not in self.scripts and len(self.scripts) < 4000:
+                self.scripts[key] = {k: case.get(k) for k in ('schema', 'mutation', 'xml', 'hex', 'entry')}
+
+
+STATE_MON: dict[str, Any] = {'mon': None, 'obs': None}
 
 
 def where(e: BaseException) -> list[str]:
@@ -723,7 +942,7 @@ def measure_d0(schema: Any) -> Optional[int]:
     def fails(d: int) -> bool:
         data = forest_xml(chain(d)).encode()
         o = deep(25, lambda: call(lambda: schema.is_valid(data)))
-        return o.get('exc') == 'RecursionError'
+        return is_overflow(o)
     from xmlschema import _limits
     lo, hi = 20, max(30, min(1000, _limits.MAX_XML_DEPTH) - 10)
     if not fails(hi):
@@ -1127,7 +1346,8 @@ def _tree_call(schema: Any, data: bytes, kind: str) -> Any:
     return list(schema.iter_errors(tree, use_location_hints=True)) and None
 
 
-def fuzz_case(ctx: Ctx, schema: Any, sname: str, data: bytes, how: str, seen_classes: dict) -> None:
+def fuzz_case(ctx: Ctx, schema: Any, sname: str, data: bytes, how: str, seen_classes: dict,
+              entry_points: Optional[list] = None) -> None:
     wf_depth = doc_depth(data)
     well_formed = wf_depth is not None
     try:
@@ -1137,8 +1357,15 @@ def fuzz_case(ctx: Ctx, schema: Any, sname: str, data: bytes, how: str, seen_cla
     case_base = {'schema': sname, 'mutation': how, 'xml': text,
                  'hex': data.hex() if not data.isascii() else None, 'depth': wf_depth, 'well_formed': well_formed}
     outcomes = []
-    for name, mode, fn in fuzz_entry_points(schema):
-        o = call(lambda: fn(data))
+    mon: Optional[RaiseMonitor] = STATE_MON['mon']
+    for name, mode, fn in (entry_points or fuzz_entry_points(schema)):
+        fired: list = []
+        if mon is not None and mon.ok:
+            o, fired = mon.watch(lambda: fn(data))
+        else:
+            o = call(lambda: fn(data))
+        if mon is not None and mon.ok and STATE_MON['obs'] is not None:
+            STATE_MON['obs'].add('lax' if mode == 'tree' else mode, fired, o, mon, dict(case_base, entry=name))
         if o.get('exc') == 'XMLResourceError' and 'already under iteration' in o.get('msg', ''):
             # the lock of a lazy resource is released when its abandoned generator is finalised: timing of the
             # garbage collector, not a property of the input (counted; retried once after a collection)
@@ -1350,6 +1577,513 @@ def esc_attr(v: str) -> str:
     return v.replace('&', '&amp;').replace('<', '&lt;').replace('"', '&quot;')
 
 
+# ------------------------------------------------------------------------------------------------
+# interpreter frames of the recursive descent (C11-F2 / C11-F16): both variants of XsdElement.raw_decode, by detection
+
+RECURSION_MSG = "recursion limit"
+
+
+def is_overflow(o: dict) -> bool:
+    """the descent ran out of interpreter frames: RecursionError (pinned) or the translated resource error (repaired)"""
+    return o.get('exc') == 'RecursionError' or (o.get('exc') == 'XMLResourceExceeded' and RECURSION_MSG in (o.get('msg') or ''))
+
+
+def descent_entry_points(ctx: Ctx, schema: Any) -> list[tuple[str, Callable[[bytes], Any]]]:
+    import xmlschema
+    eps: list[tuple[str, Callable[[bytes], Any]]] = [
+        ('is_valid', lambda d: schema.is_valid(d)),
+        ('decode:lax', lambda d: schema.decode(d, validation='lax')),
+        ('lazy.is_valid', lambda d: schema.is_valid(xmlschema.XMLResource(d, lazy=True))),
+        ('decode+encode', lambda d: schema.encode(_decode_deep(schema, d, None), validation='lax')),
+    ]
+    if not ctx.quick():
+        for cname in ('ParkerConverter', 'BadgerFishConverter', 'AbderaConverter', 'JsonMLConverter', 'UnorderedConverter',
+                      'DataElementConverter', 'GDataConverter'):
+            conv = getattr(xmlschema, cname)
+            eps.append(('decode:' + cname, (lambda c: lambda d: schema.decode(d, converter=c, validation='lax'))(conv)))
+        eps.append(('decode:skip', lambda d: schema.decode(d, validation='skip')))
+        eps.append(('iter_errors', lambda d: list(schema.iter_errors(d))))
+    return eps
+
+
+def _decode_deep(schema: Any, data: bytes, conv: Any) -> Any:
+    """decoded data of a deep document, obtained with a recursion limit that cannot interfere"""
+    old = sys.getrecursionlimit()
+    sys.setrecursionlimit(old * 4 + 2000)
+    try:
+        return schema.decode(data, converter=conv, validation='skip')
+    finally:
+        sys.setrecursionlimit(old)
+
+
+def descent_part(ctx: Ctx, drv: Optional[Driver]) -> None:
+    """Frame cost of one element level, measured for every entry point at two recursion limits and compared with
+    `descendFits` / `processExc` of the model (2 frames per level; overflow -> RecursionError when the descent is as
+    pinned, XMLResourceExceeded when it is repaired — `Generated.C11.recursionGuard` read from the AST)."""
+    import xmlschema
+    schema = xmlschema.XMLSchema10(RECURSIVE_XSD)
+    guarded = recursion_guard()
+    r1 = sys.getrecursionlimit()
+    limits_r = [r1, r1 + 600]
+    from xmlschema import limits
+    L, E = limits.MAX_XML_DEPTH, limits.MAX_XML_ELEMENTS
+    reqs: list = []
+    pend: list = []
+    table: dict = {}
+
+    def deep(k: int, fn: Callable[[], Any]) -> Any:
+        return fn() if k == 0 else deep(k - 1, fn)
+
+    for name, fn in descent_entry_points(ctx, schema):
+        d0s = []
+        for r in limits_r:
+            sys.setrecursionlimit(r)
+            try:
+                def outcome(d: int) -> dict:
+                    data = forest_xml(chain(d)).encode()
+                    return deep(20, lambda: call(lambda: fn(data)))
+                lo, hi = 10, min(L, r)
+                o_hi = outcome(hi)
+                if not is_overflow(o_hi):
+                    d0s.append(None)
+                    continue
+                while lo < hi:
+                    mid = (lo + hi) // 2
+                    if is_overflow(outcome(mid)):
+                        hi = mid
+                    else:
+                        lo = mid + 1
+                d0 = lo
+                o_at, o_below = outcome(d0), outcome(d0 - 1)
+            finally:
+                sys.setrecursionlimit(r1)
+            d0s.append(d0)
+            case = {'schema': 'recursive/1.0', 'entry': name, 'recursion_limit': r, 'depth': d0, 'mutation': 'descent-frames',
+                    'gen': {'chain': d0, 'elements': d0}, 'limits': None}
+            ctx.case(case, True, tag='descent/' + name)
+            ctx.count('descent-overflow:%s' % o_at.get('exc'))
+            # the property: never a foreign exception; a document within the limits is processed
+            if o_at['class'] == 'foreign':
+                report(ctx, 'an exception outside the library hierarchy escaped', case,
+                       {'exc': o_at['exc'], 'msg': o_at['msg'], 'entry': name, 'mode': 'lax', 'where': o_at.get('where')})
+            elif d0 <= L:
+                report(ctx, 'a document within the limits was not processed to a verdict', case,
+                       {'exc': o_at.get('exc'), 'msg': o_at.get('msg'), 'entry': name, 'mode': 'lax'})
+            if o_below['class'] != 'verdict':
+                report(ctx, 'a document within the limits (and within the measured frame budget) was not processed', dict(case, depth=d0 - 1),
+                       {'exc': o_below.get('exc'), 'msg': o_below.get('msg'), 'entry': name, 'mode': 'lax'})
+            pend.append((case, o_at, d0, r, name))
+        table[name] = d0s
+        if d0s[0] is not None and d0s[1] is not None:
+            ctx.count('frames-per-level:%s' % (600 / (d0s[1] - d0s[0]) if d0s[1] != d0s[0] else 'inf'))
+    ctx.extra['descent_frames'] = {'recursion_limits': limits_r, 'smallest_overflowing_depth': table, 'guarded': guarded}
+    if not drv:
+        return
+    # the model: overflow iff 2*depth + tail > free.  tail (frames of the caller + of the innermost level) is taken from the
+    # measurement at the FIRST limit; the prediction at the second limit (same parity) is then fixed.
+    by_entry: dict = {}
+    for case, o_at, d0, r, name in pend:
+        by_entry.setdefault(name, []).append((case, o_at, d0, r))
+    for name, lst in by_entry.items():
+        tail = lst[0][3] - 2 * lst[0][2] + 1
+        if tail < 0:
+            ctx.mismatch('descent frames: more than two frames per level', {'entry': name}, lst[0][2], None)
+            continue
+        for case, o_at, d0, r in lst:
+            ans = drv.query([{'op': 'descent', 'L': L, 'E': E, 'depth': d, 'free': r, 'tail': tail} for d in (d0 - 1, d0)])
+            ctx.traces += 2
+            want_exc = o_at.get('exc')
+            if ans[0].get('fits') is not True or ans[0].get('exc') is not None or ans[1].get('fits') is not False \
+                    or ans[1].get('exc') != want_exc or ans[1].get('guarded') != guarded:
+                ctx.mismatch('descent frames (two frames per element level; class of the overflow error)', case,
+                             {'smallest_overflowing_depth': d0, 'exc': want_exc, 'guarded': guarded}, ans)
+
+
+# ------------------------------------------------------------------------------------------------
+# encoding: decoded data of generated documents, mutated, given back to schema.encode with every converter
+
+ENC_CONVERTERS = ['XMLSchemaConverter', 'ParkerConverter', 'BadgerFishConverter', 'AbderaConverter', 'JsonMLConverter',
+                  'UnorderedConverter', 'ColumnarConverter', 'GDataConverter', 'DataElementConverter']
+
+
+class _Odd:
+    def __repr__(self) -> str:
+        return '<odd object>'
+
+
+def mutate_data(rng: Any, data: Any) -> tuple[Any, str]:
+    """One mutation of decoded data (dict / list / scalars / DataElement trees are copied structurally first)."""
+    import copy
+    try:
+        data = copy.deepcopy(data)
+    except Exception:  # noqa
+        return data, 'none'
+    spots: list[tuple[Any, Any]] = []          # (container, key)
+
+    def walk(x: Any, depth: int = 0) -> None:
+        if depth > 40:
+            return
+        if isinstance(x, dict):
+            for k in list(x):
+                spots.append((x, k))
+                walk(x[k], depth + 1)
+        elif isinstance(x, list):
+            for i in range(len(x)):
+                spots.append((x, i))
+                walk(x[i], depth + 1)
+        elif hasattr(x, '__dict__') and hasattr(x, 'tag'):
+            for attr in ('value', 'text', 'attrib'):
+                if hasattr(x, attr):
+                    spots.append((x, '.' + attr))
+            try:
+                for i in range(len(x)):
+                    spots.append((x, i))
+                    walk(x[i], depth + 1)
+            except Exception:  # noqa
+                pass
+    walk(data)
+    kind = rng.choice(['value', 'value', 'type', 'delete', 'add-key', 'dup', 'root', 'nest'])
+    if not spots or kind == 'root':
+        return rng.choice([None, [], {}, 'text', 12, [1, 2], {'unknown': 1}, {'@x': 1}, _Odd(), (1, 2), [[data]], {'a': {'b': data}}]), 'root'
+    c, k = rng.choice(spots)
+
+    def put(v: Any) -> None:
+        if isinstance(k, str) and k.startswith('.'):
+            setattr(c, k[1:], v)
+        else:
+            c[k] = v
+    try:
+        if kind == 'value':
+            put(rng.choice(NASTY))
+        elif kind == 'type':
+            put(rng.choice([None, 12, 1.5, True, [], {}, [None], {'$': 1}, {'@a': [1]}, b'bytes', _Odd(), ('t',), float('nan'), 10 ** 30, ['a', ['b']]]))
+        elif kind == 'delete':
+            if isinstance(c, (dict, list)) and not (isinstance(k, str) and k.startswith('.')):
+                del c[k]
+        elif kind == 'add-key':
+            if isinstance(c, dict):
+                c[rng.choice(['unknown', '@unknown', 'zz:x', '{urn:o}x', '', '$', '@xmlns:q', 'xsi:type', '@xsi:type', '@xsi:nil', 1, None])] = \
+                    rng.choice(['v', 1, None, {}, [], 'p:nonexistent', 'true'])
+            elif isinstance(c, list):
+                c.insert(rng.randrange(len(c) + 1), rng.choice(['v', 1, None, {}, [], {'unknown': 1}]))
+        elif kind == 'dup':
+            if isinstance(c, list):
+                c.extend(copy.deepcopy(c) * rng.choice([1, 3]))
+            else:
+                put([copy.deepcopy(c[k])] * 3 if not (isinstance(k, str) and k.startswith('.')) else None)
+        else:
+            cur: Any = rng.choice(NASTY)
+            for _ in range(rng.choice([3, 30, 200])):
+                cur = {rng.choice(['title', 'item', 'n', 'row', 'x']): [cur]}
+            put(cur)
+    except Exception:  # noqa
+        return data, 'none'
+    return data, kind
+
+
+def encode_part(ctx: Ctx) -> None:
+    """schema.encode / to_etree on decoded data (valid and invalid documents, every converter), unchanged and mutated, in
+    strict / lax / skip: every call must end with a result or a library error."""
+    import xmlschema
+    rng = ctx.rng
+    schemas: dict[str, Any] = {}
+    for fam in 'TN':
+        for v11 in (False, True):
+            schemas['%s/%s' % (fam, '1.1' if v11 else '1.0')] = (xmlschema.XMLSchema11 if v11 else xmlschema.XMLSchema10)(G.xsd_text(fam, v11))
+    schemas['recursive/1.0'] = xmlschema.XMLSchema10(RECURSIVE_XSD)
+    schemas['typed-values/1.0'] = xmlschema.XMLSchema10(TV_XSD)
+    mon: Optional[RaiseMonitor] = STATE_MON['mon']
+    n_docs = ctx.pick(90, 900)
+    for i in range(n_docs):
+        r = rng.random()
+        if r < 0.12:
+            sname = 'recursive/1.0'
+            xml = forest_xml(random_forest(rng, 5, 12)).replace('<n>', '<n a="%s">' % rng.choice(['1', 'x', '']), 1) if rng.random() < 0.5 else \
+                forest_xml(chain(rng.choice([1, 3, 40])))
+            if not xml.startswith('<n'):
+                xml = '<n/>'
+        elif r < 0.24:
+            sname = 'typed-values/1.0'
+            names = rng.sample(list(TV_VALUES), rng.randint(1, 4))
+            xml = '<doc><row %s/></doc>' % ' '.join('%s="%s"' % (n, esc_attr(rng.choice(TV_VALUES[n]))) for n in names)
+        else:
+            fam = rng.choice(['T', 'T', 'N'])
+            sname = '%s/%s' % (fam, rng.choice(['1.0', '1.1']))
+            xml = G.gen_case(rng, family=fam, nfaults=rng.choice([0, 0, 1]))['xml']
+        schema = schemas[sname]
+        cname = rng.choice(ENC_CONVERTERS)
+        conv = getattr(xmlschema, cname)
+        o = call(lambda: schema.decode(xml, converter=conv, validation='lax'))
+        if o['class'] != 'verdict':
+            continue            # decoding is judged by the fuzz part
+        try:
+            data = schema.decode(xml, converter=conv, validation='lax')[0]
+        except Exception:  # noqa
+            continue
+        variants = [(data, 'decoded')]
+        for _ in range(ctx.pick(3, 4)):
+            variants.append(mutate_data(rng, data))
+        for obj, how in variants:
+            outcomes = []
+            for mode in ('lax', 'strict', 'skip'):
+                for ep_name, fn in (('encode', lambda: schema.encode(obj, converter=conv, validation=mode)),) + \
+                        ((('to_etree+path', lambda: schema.to_etree(obj, path=rng.choice(['*', 'p:root', 'doc', 'n', 'zz:x', '/', './/x']),
+                                                                     converter=conv, validation=mode)),) if rng.random() < 0.15 else ()):
+                    if mon is not None and mon.ok:
+                        oo, fired = mon.watch(fn)
+                    else:
+                        oo, fired = call(fn), []
+                    case = {'schema': sname, 'mutation': 'encode:' + how, 'xml': xml, 'hex': None, 'converter': cname,
+                            'data': repr(obj)[:1500], 'entry': '%s:%s' % (ep_name, mode)}
+                    if mon is not None and mon.ok and STATE_MON['obs'] is not None and ep_name == 'encode':
+                        STATE_MON['obs'].add(mode, fired, oo, mon, case, encode=True)
+                    outcomes.append(oo['class'])
+                    ctx.count('encode-outcome:%s:%s' % (mode, oo.get('exc') or 'result'))
+                    if oo['class'] == 'foreign':
+                        report(ctx, 'encoding: an exception outside the library hierarchy escaped', case,
+                               {'exc': oo['exc'], 'msg': oo['msg'], 'entry': case['entry'], 'mode': mode, 'where': oo.get('where'),
+                                'converter': cname, 'direction': 'encode'})
+            ctx.case({'schema': sname, 'converter': cname, 'mutation': 'encode:' + how, 'xml': xml, 'data': repr(obj)[:600]},
+                     any(x != 'verdict' for x in outcomes) or how != 'decoded', tag='encode/' + how)
+
+
+# ------------------------------------------------------------------------------------------------
+# schema-level APIs that take documents, with randomised option combinations
+
+def random_options(rng: Any, xmlschema: Any, for_decode: bool) -> tuple[dict, dict]:
+    """(kwargs, description); hooks only return what the documentation allows and only raise library errors"""
+    kw: dict = {}
+    desc: dict = {}
+    flags = {'strict_hook': False, 'stop': False}
+
+    def maybe(p: float) -> bool:
+        return rng.random() < p
+    if maybe(0.35):
+        kw['max_depth'] = desc['max_depth'] = rng.choice([0, 1, 2, 3, 10])
+    if maybe(0.3):
+        ret = rng.choice([False, True, 'skip', 'lax', 'lax', None, 'bogus', 'stop'])
+        nth = rng.randint(0, 4)
+        counter = [0]
+
+        def hook(elem: Any, xsd_element: Any) -> Any:
+            counter[0] += 1
+            if counter[0] <= nth:
+                return False
+            if ret == 'stop':
+                raise xmlschema.XMLSchemaStopValidation()
+            return ret
+        kw['validation_hook'] = hook
+        desc['validation_hook'] = '%r after %d' % (ret, nth)
+        flags['stop'] = ret == 'stop'
+    if maybe(0.3):
+        style = rng.choice(['raise', 'yield', 'none', 'yield2'])
+
+        def extra(elem: Any, xsd_element: Any) -> Any:
+            if style == 'raise' and len(elem) == 0:
+                raise xmlschema.XMLSchemaValidationError(xsd_element, elem, 'extra: leaf refused')
+            if style == 'none':
+                return None
+
+            def gen() -> Any:
+                if style in ('yield', 'yield2') and elem.text and elem.text.strip():
+                    yield xmlschema.XMLSchemaValidationError(xsd_element, elem, 'extra: text refused')
+                    if style == 'yield2':
+                        yield xmlschema.XMLSchemaValidationError(xsd_element, elem, 'extra: twice')
+            return gen()
+        kw['extra_validator'] = extra
+        desc['extra_validator'] = style
+    if maybe(0.2):
+        kw['use_defaults'] = desc['use_defaults'] = rng.choice([True, False])
+    if maybe(0.15):
+        kw['use_location_hints'] = desc['use_location_hints'] = True
+    if for_decode:
+        if maybe(0.25):
+            kw['filler'] = lambda xsd_element: '?'
+            desc['filler'] = True
+        if maybe(0.25):
+            kw['depth_filler'] = rng.choice([lambda xsd_element: None, lambda xsd_element: {'...': 1}])
+            desc['depth_filler'] = True
+        if maybe(0.25):
+            hv = rng.choice(['id', 'str', 'none'])
+            kw['value_hook'] = {'id': (lambda v, t: v), 'str': (lambda v, t: str(v)), 'none': (lambda v, t: None)}[hv]
+            desc['value_hook'] = hv
+        if maybe(0.2):
+            kw['element_hook'] = lambda element_data, xsd_element, xsd_type: element_data
+            desc['element_hook'] = 'id'
+        for flag in ('fill_missing', 'keep_empty', 'keep_unknown', 'process_skipped', 'binary_types', 'datetime_types'):
+            if maybe(0.3):
+                kw[flag] = desc[flag] = rng.choice([True, False])
+        if maybe(0.3):
+            dt = rng.choice([str, float, None])
+            kw['decimal_type'] = dt
+            desc['decimal_type'] = getattr(dt, '__name__', None)
+        if maybe(0.5):
+            cname = rng.choice(ENC_CONVERTERS)
+            kw['converter'] = getattr(xmlschema, cname)
+            desc['converter'] = cname
+    return kw, dict(desc, **{'_' + k: v for k, v in flags.items()})
+
+
+def options_part(ctx: Ctx) -> None:
+    import xmlschema
+    rng = ctx.rng
+    schemas: dict[str, Any] = {}
+    for fam in 'TN':
+        for v11 in (False, True):
+            schemas['%s/%s' % (fam, '1.1' if v11 else '1.0')] = (xmlschema.XMLSchema11 if v11 else xmlschema.XMLSchema10)(G.xsd_text(fam, v11))
+    schemas['recursive/1.0'] = xmlschema.XMLSchema10(RECURSIVE_XSD)
+    mon: Optional[RaiseMonitor] = STATE_MON['mon']
+    for i in range(ctx.pick(500, 6000)):
+        if rng.random() < 0.1:
+            sname = 'recursive/1.0'
+            xml = forest_xml(random_forest(rng, 6, 14))
+            if not xml.startswith('<n'):
+                xml = '<n/>'
+            paths = [None, '*', './/n', 'n/n', '/n', 'n', '.', '*/*']
+        else:
+            fam = rng.choice(['T', 'T', 'N'])
+            sname = '%s/%s' % (fam, rng.choice(['1.0', '1.1']))
+            c = G.gen_case(rng, family=fam, nfaults=rng.choice([0, 0, 1, 2]))
+            root = c['tree']
+            if rng.random() < 0.4:
+                mutate_tree(rng, root)
+            xml = G.serialize(root, c['style'])
+            paths = [None, None, '*', '*/*', './/*', '.', '/*', '*/*/*', './/p:item', 'p:root/p:item', 'doc/*', '/doc', 'nothing', '*[1]']
+        data = xml.encode('utf-8', 'surrogatepass')
+        schema = schemas[sname]
+        wf_depth = doc_depth(data)
+        for_decode = rng.random() < 0.6
+        kw, desc = random_options(rng, xmlschema, for_decode)
+        path = rng.choice(paths)
+        nsmap = {'p': G.TNS, 'o': G.ONS}
+        lazy = rng.choice([False, False, True, 2]) if path is None else False     # a path cannot be used on a lazy resource
+        mode = rng.choice(['lax', 'lax', 'strict', 'skip'])
+        stop = desc.pop('_stop')
+        desc.pop('_strict_hook')
+
+        def src() -> Any:
+            return xmlschema.XMLResource(data, lazy=lazy) if lazy else data
+        if for_decode:
+            api = rng.choice(['iter_decode', 'decode', 'to_objects' if 'converter' not in kw else 'decode'])
+            if api == 'iter_decode':
+                fn = lambda: list(schema.iter_decode(src(), path=path, validation=mode, namespaces=nsmap, **kw))  # noqa
+            elif api == 'decode':
+                fn = lambda: schema.decode(src(), path=path, validation=mode, namespaces=nsmap, **kw)  # noqa
+            else:
+                kw.pop('converter', None)
+                fn = lambda: schema.to_objects(src(), path=path, validation=mode, namespaces=nsmap, **kw)  # noqa
+        else:
+            api = rng.choice(['iter_errors', 'is_valid', 'validate'])
+            vkw = {k: v for k, v in kw.items() if k in ('max_depth', 'validation_hook', 'extra_validator', 'use_defaults', 'use_location_hints')}
+            if api == 'iter_errors':
+                mode = 'lax'
+                fn = lambda: list(schema.iter_errors(src(), path=path, namespaces=nsmap, **vkw))  # noqa
+            elif api == 'is_valid':
+                mode = 'lax'
+                fn = lambda: schema.is_valid(src(), path=path, namespaces=nsmap, **vkw)  # noqa
+            else:
+                mode = 'strict'
+                fn = lambda: schema.validate(src(), path=path, namespaces=nsmap, **vkw)  # noqa
+        if mon is not None and mon.ok:
+            o, fired = mon.watch(fn)
+        else:
+            o, fired = call(fn), []
+        if o.get('exc') == 'XMLResourceError' and 'already under iteration' in o.get('msg', ''):
+            import gc
+            gc.collect()
+            o = call(fn)
+        case = {'schema': sname, 'mutation': 'options', 'xml': xml, 'hex': data.hex() if not data.isascii() else None, 'api': api,
+                'mode': mode, 'path': path, 'lazy': lazy, 'options': desc, 'depth': wf_depth, 'seed_index': i}
+        ctx.case(case, o['class'] != 'verdict' or bool(desc), tag='options/' + api)
+        ctx.count('options-outcome:%s' % (o.get('exc') or 'verdict'))
+        for k in desc:
+            ctx.count('option:' + k)
+        if o['class'] == 'foreign':
+            report(ctx, 'schema-level API with options: an exception outside the library hierarchy escaped', case,
+                   {'exc': o['exc'], 'msg': o['msg'], 'entry': api, 'mode': mode, 'where': o.get('where'), 'options': desc})
+        elif o['class'] == 'library' and mode in ('lax', 'skip') and wf_depth is not None and wf_depth <= State.max_xml_depth:
+            if o['exc'] == 'XMLSchemaStopValidation' and stop:
+                ctx.count('options:stop-requested-by-hook')
+                continue
+            if o['exc'] in ('XMLResourceForbidden', 'XMLResourceBlocked'):
+                continue
+            report(ctx, '%s mode raised for a well-formed document (invalid content must be collected, not raised)' % mode, case,
+                   {'exc': o['exc'], 'msg': o['msg'], 'entry': api, 'mode': mode, 'where': o.get('where'), 'options': desc})
+
+
+def policy_part(ctx: Ctx, drv: Optional[Driver], obs: Optional[PolicyObs]) -> None:
+    """Tie of the raise-site policy (Model/RaisePolicy.lean) with what the raise statements of xmlschema/validators did
+    during the fuzz run: (a) every executed statement is one the model says is executed in that (local) mode;
+    (b) for every distinct script — the sequence of raise statements one entry-point call executed — the model's `run`
+    predicts which statement, if any, ends the call; compared with the statement the escaping exception came from."""
+    if obs is None:
+        ctx.notes.append('raise-site policy: sys.monitoring not available, dynamic tie skipped')
+        return
+    ctx.extra['raise_policy'] = {'calls_observed': obs.calls, 'distinct_sites_fired': len({k[:2] for k in obs.sites}),
+                                 'distinct_scripts': len(obs.scripts),
+                                 'sites_escaped_lax_skip': sorted({k[0] for k, v in obs.sites.items() if v['escaped'] and k[2] != 'strict'})}
+    for (key, idx, mode), rec in obs.sites.items():
+        ctx.case({'raise_site': key, 'idx': idx, 'mode': mode}, True, tag='policy/site')
+        ctx.count('raise-site-fired:%s' % mode)
+    for sk in obs.scripts:
+        ctx.case({'script': [list(x) for x in sk[1]], 'mode': sk[0], 'escaped': sk[2], 'exc': sk[3]}, bool(sk[1]), tag='policy/script')
+    if not drv:
+        return
+    keys = sorted(obs.sites)
+    for (key, idx, mode), ans in zip(keys, drv.query([{'op': 'site', 'key': k, 'idx': i, 'mode': m} for k, i, m in keys])):
+        ctx.traces += 1
+        rec = obs.sites[key, idx, mode]
+        if not ans.get('known') or ans.get('kind') is None:
+            ctx.mismatch('an executed raise statement is not in the regenerated table / not classified', {'site': key, 'idx': idx}, rec, ans)
+        elif rec['fired'] and ans.get('fire') == 'silent':
+            ctx.mismatch('a raise statement that the policy model says is not executed in this mode (for a built schema and a '
+                         'document) was executed', {'site': key, 'idx': idx, 'mode': mode, 'example': rec['example']},
+                         {'fired': rec['fired'], 'escaped': rec['escaped']}, ans)
+        elif rec['escaped'] and mode != 'strict' and not ans.get('resourceOrStop'):
+            ctx.mismatch('the exception of a raise statement left a lax / skip entry point although the policy model says it is '
+                         'collected', {'site': key, 'idx': idx, 'mode': mode, 'example': rec['example']},
+                         {'fired': rec['fired'], 'escaped': rec['escaped']}, ans)
+    ekeys = sorted(obs.encode_sites)
+    for (key, idx), ans in zip(ekeys, drv.query([{'op': 'site', 'key': k, 'idx': i, 'mode': 'lax'} for k, i in ekeys])):
+        ctx.traces += 1
+        if not ans.get('known') or ans.get('kind') is None:
+            ctx.mismatch('a raise statement executed while encoding is not in the regenerated table / not classified',
+                         {'site': key, 'idx': idx}, obs.encode_sites[key, idx], ans)
+        elif ans.get('kind') in ('buildTime', 'notBuilt', 'abstractStub', 'invariant'):
+            ctx.mismatch('a raise statement that the policy model says is never executed for a built schema was executed while '
+                         'encoding', {'site': key, 'idx': idx}, obs.encode_sites[key, idx], ans)
+    sks = sorted(obs.scripts, key=repr)
+    reqs = [{'op': 'run', 'mode': sk[0], 'script': [[k, i, n] for k, i, n in sk[1]]} for sk in sks]
+    for sk, ans in zip(sks, drv.query(reqs)):
+        ctx.traces += 1
+        mode, script, esc, exc = sk
+        want_key = None
+        if esc is not None:
+            want_key = esc[0]
+        got = ans.get('raised')
+        # the model names the class of the site that ends the descent; the implementation: the site the exception came from
+        got_site = None
+        if got is not None:
+            # first site of the script whose class is the predicted one and that the model lets escape
+            got_site = ans.get('raisedKind')
+        impl = {'escaped_from': want_key, 'exc': exc}
+        if ans.get('unknown_site'):
+            ctx.mismatch('script with a raise statement unknown to the model', {'script': list(script), 'example': obs.scripts[sk]}, impl, ans)
+        elif (got is None) != (want_key is None):
+            if want_key is None and exc is not None and mode == 'strict':
+                # the call was ended by an exception that did not originate in a raise statement of the validators
+                # (resource errors, generator wrappers `raise error` of validate/decode): the last executed statement
+                # must then be the strict raise of raise_or_collect re-raised by the wrapper — accepted when the model
+                # ends the script with a strict site
+                if ans.get('raisedKind') in ('strictGuard', 'strictWrapper'):
+                    continue
+            ctx.mismatch('raise-site script: the model and the implementation disagree on whether a raise statement ends the call',
+                         {'mode': mode, 'script': [list(x) for x in script], 'example': obs.scripts[sk]}, impl, ans)
+        elif got is not None and mode != 'strict' and got_site not in ('limit', 'stop'):
+            ctx.mismatch('raise-site script: a lax / skip call ended by a statement that is no resource / stop site',
+                         {'mode': mode, 'script': [list(x) for x in script], 'example': obs.scripts[sk]}, impl, ans)
+
+
 def run(ctx: Ctx, driver_ok: bool) -> None:
     ctx.known.extend(e for e in local_findings() if e.get('property') == 'C11'
                      and not any(k['id'] == e['id'] for k in ctx.known))
@@ -1357,8 +2091,18 @@ def run(ctx: Ctx, driver_ok: bool) -> None:
     limits_part(ctx, drv)
     setters_part(ctx, drv)
     handlers_part(ctx, drv)
-    typed_values_part(ctx)
-    fuzz_part(ctx, drv)
+    with RaiseMonitor() as mon:
+        obs = PolicyObs() if mon.ok else None
+        STATE_MON['mon'], STATE_MON['obs'] = (mon, obs) if mon.ok else (None, None)
+        try:
+            typed_values_part(ctx)
+            fuzz_part(ctx, drv)
+            encode_part(ctx)
+            options_part(ctx)
+        finally:
+            STATE_MON['mon'] = STATE_MON['obs'] = None
+    policy_part(ctx, drv, obs)
+    descent_part(ctx, drv)
 
 
 def search(ctx: Ctx) -> None:
